@@ -448,6 +448,22 @@ theorem doktorov_inverse_transpose (U1 U2 : Matrix n n ℝ) (σ σ' : n → ℝ)
     _ = U1ᵀ * ((diagonal σ' * diagonal σ) * U1) := by rw [h2, Matrix.one_mul, Matrix.mul_assoc]
     _ = 1 := by rw [hd, Matrix.one_mul, h1]
 
+/-- no choice of parameters satisfies both pinned conventions *and* the Duschinsky relation: if the momentum block is
+`J` (what `test_duschinsky` demands of `gbs_params`) and the position block of the same circuit is `J` too, then every
+singular value is `±1` (no squeezing at all) -/
+theorem doktorov_both_blocks (U1 U2 : Matrix n n ℝ) (σ σ' : n → ℝ) (hσ : ∀ i, σ i * σ' i = 1)
+    (h1 : U1 * U1ᵀ = 1) (h2 : U2ᵀ * U2 = 1) (h : U2 * diagonal σ' * U1 = U2 * diagonal σ * U1) :
+    ∀ i, σ i * σ i = 1 := by
+  have hd : diagonal σ' = diagonal σ := by
+    calc diagonal σ' = (U2ᵀ * U2) * diagonal σ' * (U1 * U1ᵀ) := by rw [h1, h2, Matrix.one_mul, Matrix.mul_one]
+      _ = U2ᵀ * (U2 * diagonal σ' * U1) * U1ᵀ := by simp only [Matrix.mul_assoc]
+      _ = U2ᵀ * (U2 * diagonal σ * U1) * U1ᵀ := by rw [h]
+      _ = (U2ᵀ * U2) * diagonal σ * (U1 * U1ᵀ) := by simp only [Matrix.mul_assoc]
+      _ = diagonal σ := by rw [h1, h2, Matrix.one_mul, Matrix.mul_one]
+  intro i
+  have := congrFun (diagonal_injective hd) i
+  rw [← hσ i, this]
+
 theorem doktorov_position_fails :
     ¬ ∀ (U1 U2 : Matrix (Fin 1) (Fin 1) ℝ) (σ σ' : Fin 1 → ℝ), (∀ i, σ i * σ' i = 1) →
       (fromBlocks U2 0 0 U2 * fromBlocks (diagonal σ') 0 0 (diagonal σ) * fromBlocks U1 0 0 U1).toBlocks₁₁
